@@ -64,7 +64,7 @@ CLAIMED['C16'] = {
 
 CLAIMED['C19'] = {
     'text': 'Static classification of every natural loop (~920) in the crate as terminating (finite iterator / counter / '
-            'serde input / drained, visited-guarded or budgeted work list; 5 table entries with the termination '
+            'serde input / collector / drained, visited-guarded or budgeted work list; 4 table entries with the termination '
             'argument), of the 5 recursive call-graph cycles with their bound idioms re-checked, of the explicit panic '
             'sites per function against a classified table, a ban on keyed slot-map indexing, and a call-graph fixed '
             'point showing that a caller-supplied vertex passes a finiteness validation before it can reach storage '
